@@ -22,6 +22,22 @@ CHECKS = {
             'None-background branch of detect_threshold. Image sizes <= 40 px.'),
 }
 
+CHECKS['C01'] = ('DESIGN.md#C01',
+    'Hypothesis-generated apertures (incl. constructed corner/tangent/vertex '
+    'adversaries) vs. independent geometric oracles (Green\'s-theorem '
+    'polygon-disk area, polygon clipping, strict-inequality centre counts, '
+    'index-set semantics for slices)',
+    'Generated-input search over the six pixel aperture classes, three '
+    'methods, subpixels 1..32, centres incl. half-integer/far-off, sizes '
+    '0.03..400 px: every exact weight of boundary pixels is compared with an '
+    'independently computed overlap area (1e-8), centre/subpixel weights '
+    'with a strict-inequality count (ambiguity band 1e-9), boxes with closed-'
+    'form extents, overlap slices with explicit pixel-index sets. Held on N '
+    'cases; not a proof.',
+    'Trusted: numpy, math. .pyx kernels cannot be re-translated offline '
+    '(compiled .c is what runs). Known finding F24 (corner on ellipse) is '
+    'excluded by signature and counted.')
+
 NOT_APPLICABLE = []
 
 
